@@ -484,7 +484,7 @@ def _run_body(job, io, tape):
                 e = pick()
                 o = pick()
                 opn = tape.choice(('flatten_up_to', 'flatten_up_to_other', 'common_suffix_other', 'is_prefix', 'compare', 'compose',
-                                   'transform_raise', 'transform_keep', 'transform_keep', 'unflatten_short', 'unflatten_long', 'unflatten', 'walk', 'traverse',
+                                   'transform_raise', 'transform_keep', 'transform_keep', 'repr_raise', 'hash_raise', 'eq_raise', 'unflatten_short', 'unflatten_long', 'unflatten', 'walk', 'traverse',
                                    'broadcast_prefix_other', 'broadcast_common_other', 'hash_eq', 'pickle', 'map_other', 'prefix_errors'), 'opn')
                 detail = opn
                 site = 'operand:' + opn
@@ -518,6 +518,27 @@ def _run_body(job, io, tape):
                                 raise ZeroDivisionError
                             return s
                         sp.transform(f, f)
+                    elif opn in ('repr_raise', 'hash_raise', 'eq_raise'):
+                        # a read-only inspection that FAILS inside user code it reaches (a key / metadata dunder): the treespec must
+                        # look the same afterwards (the observation below includes its repr and hash)
+                        suffix = {'repr_raise': '__repr__', 'hash_raise': '__hash__', 'eq_raise': ('__eq__', '__ne__')}[opn]
+                        nth = [1 + tape.draw(3, 'raise-nth')]
+
+                        def failing(label):
+                            if label.endswith(suffix):
+                                nth[0] -= 1
+                                if nth[0] == 0:
+                                    raise ZeroDivisionError(label)
+                        U.HOOK = failing
+                        try:
+                            if opn == 'repr_raise':
+                                repr(sp), str(o.spec)
+                            elif opn == 'hash_raise':
+                                hash(sp), hash(o.spec)
+                            else:
+                                sp == pickle.loads(pickle.dumps(sp)), sp != o.spec
+                        finally:
+                            U.HOOK = None
                     elif opn == 'transform_keep':
                         # the one-level treespecs the callbacks receive belong to the caller once handed out, and what a callback
                         # returns is an operand: keeping them (and returning the very object received) must leave them intact
